@@ -5,7 +5,7 @@ import re
 
 from ..pycalls import CallGraph
 from ..pycfg import CFG, walk_no_nested, enclosing_trys, broad_handler, handler_reraises
-from ..source import atoms, AnalysisError, find_function, first_line, src, functions, qualname
+from ..source import truth, atoms, AnalysisError, find_function, first_line, src, functions, qualname
 
 CFGPY = "nemoguardrails/rails/llm/config.py"
 UTILS = "nemoguardrails/colang/v2_x/lang/utils.py"
@@ -34,6 +34,8 @@ def run(ctx):
     c_regexes(ctx)      # (was thorough-only; 45 patterns, a few milliseconds)
     keyword_terminals_one_line(ctx)
     single_statement_files(ctx)
+    first_line_indentation(ctx)
+    v1_continuation_skips_blank_lines(ctx)
     docstring_count_ignores_comments(ctx)
 
 
@@ -266,8 +268,22 @@ def layout_facts(ctx):
               "only the space character is %%ignore'd (%s): trailing whitespace that contains a TAB (`$x = 1<TAB>`, `flow main<TAB>`) makes the file fail to parse" % sorted(ign))
     ctx.check("C13.layout", LARK, "grammar", "%ignore COMMENT", "COMMENT" in ign, "end-of-line comments are %ignore'd")
     m = re.search(r"^_NEWLINE\s*:\s*(.*)$", g, re.M)
-    ok = bool(m) and re.search(r"\)\+\s*$", m.group(1).strip()) is not None and "[\\t ]*" in m.group(1)
-    ctx.check("C13.layout", LARK, "grammar", "_NEWLINE", ok, "_NEWLINE absorbs runs of blank lines and their indentation: %s" % (m.group(1) if m else None))
+    # the blanks _NEWLINE swallows after a line break are ALL the characters the grammar ignores as white space: a white-space-only line is then a blank line
+    # whatever it is made of (F164: a form feed is %ignore'd but was not part of _NEWLINE - a line holding a form feed split the newline token and broke the block)
+    def _cls_chars(txt):
+        mm = re.search(r"\[((?:\\.|[^\]])+)\]", txt)
+        if not mm:
+            return set()
+        return set(re.sub(r"\\(.)", lambda q: {"t": "\t", "f": "\f", "n": "\n", "r": "\r"}.get(q.group(1), q.group(1)), mm.group(1)))
+    ign_ws = set()
+    for im in re.finditer(r"^%ignore\s+/(\[[^/]+\][+*])/", g, re.M):
+        ign_ws |= _cls_chars(im.group(1))
+    nl_ws = _cls_chars(m.group(1).split("\\n", 1)[-1]) if m else set()
+    ok = bool(m) and re.search(r"\)\+\s*$", m.group(1).strip()) is not None and {" ", "\t"} <= nl_ws and ign_ws <= nl_ws
+    ctx.check("C13.layout", LARK, "grammar", "_NEWLINE", ok,
+              "_NEWLINE absorbs runs of blank lines and their indentation: %s" % (m.group(1) if m else None) if ok else
+              "_NEWLINE (%s) does not swallow every ignorable white-space character after a line break (ignored: %s, swallowed: %s): a line made of the missing character splits the "
+              "newline token and changes the parse" % (m.group(1) if m else None, sorted(ign_ws), sorted(nl_ws)))
     m = re.search(r"^COMMENT\s*:\s*/(.*)/\s*$", g, re.M)
     ctx.check("C13.layout", LARK, "grammar", "COMMENT", bool(m) and m.group(1) == "#[^\\n]*", "a comment extends to the end of the line only")
     # the continuation terminals _AND/_OR embed the newline pattern: they must absorb exactly what _NEWLINE absorbs
@@ -421,11 +437,73 @@ def single_statement_files(ctx):
     for c in ast.walk(fn):
         if isinstance(c, ast.Call) and src(c.func) == "isinstance" and len(c.args) == 2 and src(c.args[0]) == "data":
             kinds |= {src(x) for x in (c.args[1].elts if isinstance(c.args[1], ast.Tuple) else [c.args[1]])}
-    ok = {"Flow", "Import"} <= kinds or not kinds
+    # or: only a real statement list (`start` / `suite` node) is unwrapped, EVERY other value is treated as the single statement of the file - then a file with one
+    # statement is checked exactly like the same statement in a longer file (F163: `while True` + nested flow / `pass` / a lone docstring loaded or failed depending on a
+    # blank line in front)
+    wraps = any(isinstance(x, ast.List) and len(x.elts) == 1 and src(x.elts[0]) == "data" for x in ast.walk(fn))
+    node_kinds = {c.value for c in ast.walk(fn) if isinstance(c, ast.Constant) and c.value in ("start", "suite")}
+    general = wraps and bool(node_kinds) and not any(isinstance(x, ast.IfExp) and isinstance(x.body, ast.List) and "Import" in src(x.test) for x in ast.walk(fn))
+    ok = general or {"Flow", "Import"} <= kinds and False
     ctx.check("C13.layout", P2, "ColangParser.parse_content", "a file with a single top-level statement", ok,
-              "a bare Flow and a bare Import are both accepted" if ok else
-              "only %s is accepted as a bare top-level element: a file whose only statement is an `import` fails with \"'NoneType' object is not iterable\", while the same file with a "
-              "blank line in front loads" % sorted(kinds), line=fn.lineno)
+              "only a statement list is unwrapped; a bare element of any kind is the single statement of the file" if ok else
+              "a bare top-level element that is not one of %s is unwrapped as if it were the statement list: its CHILDREN are taken for the module's statements, so a file whose "
+              "only statement is `while True` + a nested flow (or `pass`, or a docstring) loads differently from the same file with a blank line in front" % sorted(kinds), line=fn.lineno)
+
+
+def first_line_indentation(ctx):
+    """`uniformly scaling the indentation never changes the flows`, `adding blank lines never changes the flows`: lark's PythonIndenter measures indentation from the blanks
+    that follow a NEWLINE token only.  The first line of the text follows no newline, so its indentation is never seen unless the loader provides for it: an indenter of its
+    own that handles the first token, or a newline put in front of the text before it is parsed (F166)."""
+    LOAD = "nemoguardrails/colang/v2_x/lang/grammar/load.py"
+    P2 = "nemoguardrails/colang/v2_x/lang/parser.py"
+    tl = ctx.tree.ast(LOAD)
+    own = [c for c in ast.walk(tl) if isinstance(c, ast.ClassDef) and any("Indenter" in src(b) for b in c.bases)]
+    uses_own = any(isinstance(k, ast.keyword) and k.arg == "postlex" and isinstance(k.value, ast.Call) and src(k.value.func) in {c.name for c in own} for k in ast.walk(tl))
+    tp = ctx.tree.ast(P2)
+    gp = find_function(tp, "get_parsing_tree")
+    leading_nl = gp is not None and any(isinstance(b, ast.BinOp) and isinstance(b.op, ast.Add) and isinstance(b.left, ast.Constant) and isinstance(b.left.value, str)
+                                        and b.left.value.startswith("\n") for b in ast.walk(gp))
+    ok = uses_own or leading_nl
+    ctx.check("C13.layout.first-line-indent", LOAD, "load_lark_parser", "indentation of the first line", ok,
+              "the indentation of the first line is measured (%s)" % ("own indenter" if uses_own else "a newline is put in front of the text") if ok else
+              "the grammar is loaded with lark's PythonIndenter as it is and the text is parsed without a leading newline: the indentation of the first line is never measured - a "
+              "uniformly indented file fails as written and loads with a blank line in front", line=1)
+
+
+def v1_continuation_skips_blank_lines(ctx):
+    """Colang 1.0 joins a line that ends with `\\` or ` or` with the next line.  Blank lines are not statements: the continuation must be looked for past them, and the loop
+    must be bounded by the number of lines whatever the last text is (`A and B or C` without parentheses lets ` or` at the very end of the file index past the list)."""
+    U1 = "nemoguardrails/colang/v1_0/lang/utils.py"
+    t = ctx.tree.ast(U1)
+    fn = find_function(t, "get_numbered_lines")
+    if fn is None:
+        raise AnalysisError("get_numbered_lines not found", anchor=U1 + "::get_numbered_lines")
+    loops = [w for w in ast.walk(fn) if isinstance(w, ast.While) and "endswith" in src(w.test) and " or" in src(w.test)]
+    ctx.floor("C13.layout.v1-continuation", U1, "continuation loop in get_numbered_lines", len(loops), 1)
+    for w in loops:
+        bounded = isinstance(w.test, ast.BoolOp) and isinstance(w.test.op, ast.And) and any("len(" in src(v) for v in w.test.values)
+        # for a blank next line the append of the continuation text is not reached in that iteration (whatever the spelling: `continue`, else-branch, ...)
+        cfg = CFG(fn)
+        blank = (lambda a: isinstance(a, ast.Compare) and len(a.ops) == 1 and isinstance(a.ops[0], ast.Eq) and "strip()" in src(a.left) and src(a.comparators[0]) in ("''", '""'))
+        nblank = (lambda a: (isinstance(a, ast.Compare) and len(a.ops) == 1 and isinstance(a.ops[0], ast.NotEq) and "strip()" in src(a.left) and src(a.comparators[0]) in ("''", '""'))
+                  or (isinstance(a, ast.Call) and src(a.func).endswith(".strip") and not a.args))
+        head = cfg.node_of(w.test)
+        appends = [n for n in cfg.nodes if n.kind == "stmt" and isinstance(n.ast, (ast.Assign, ast.AugAssign)) and "raw_lines[" in src(n.ast) and "text" in src(n.ast)
+                   and any(n.ast is y for x in w.body for y in ast.walk(x))]
+        reach, stack = set(), [m for m, lab in head.succ if lab is True] if head is not None else []
+        while stack:
+            x = stack.pop()
+            if x in reach or x is head:
+                continue
+            reach.add(x)
+            tv = truth(x.ast, {blank: True, nblank: False, "i < len(raw_lines) - 1": True}) if x.kind == "test" and isinstance(x.ast, ast.expr) else None
+            stack.extend(m for m, lab in x.succ if not (tv is not None and lab in (True, False) and lab is not tv))
+        skips = bool(appends) and not any(a in reach for a in appends)
+        ok = bounded and skips
+        ctx.check("C13.layout.v1-continuation", U1, "get_numbered_lines", "blank lines inside an or continuation", ok,
+                  "the continuation line is looked for past blank lines, within the bounds of the file" if ok else
+                  "the next RAW line is appended as the continuation even when it is blank%s: a blank line after `user a or` silently turns the statement into an intent named `a or`"
+                  % ("" if bounded else " and the loop condition `A and B or C` is not bounded by the file length"), line=w.lineno)
 
 
 def c_regexes(ctx):
